@@ -20,7 +20,7 @@ import (
 
 func init() {
 	const explF = "C15-f (sibling agreement): cacheFile.Reset assigns every bookkeeping field of cacheFile — every field assigned by another function of package converters, and every field NewCacheFile's literal initialises with a value that is not a parameter or the opened file; a field Reset forgets still describes the file that was just truncated (e.g. freeStart beyond the new end: the next compaction parses from the middle of a record)."
-	const explG = "C15-g (FLOW + callee effect summaries, depth 2): a local variable defined from a scalar bookkeeping field of cacheFile (fileSize, freeStart, freeSize) is not used after a call, reachable from its definition, of a function that may assign that field, unless it is redefined in between: the index entry of a freshly stored record would otherwise be computed from the file layout before compaction."
+	const explG = "C15-g (FLOW + callee effect summaries, depth 2): a local variable defined from a scalar bookkeeping field of cacheFile (fileSize, freeStart, freeSize), or copied from an entry of a bookkeeping map (streamInfos[id]: where the record lies), is not used after a call, reachable from its definition, of a function that may assign that field, unless it is redefined in between: the index entry of a freshly stored record would otherwise be computed from the file layout before compaction."
 	register("C15", explF, ruleC15ResetCovers)
 	register("C15", explG, ruleC15StaleSnapshot)
 	register("C16", "C16-e = "+explG, ruleC15StaleSnapshot)
@@ -217,6 +217,26 @@ func ruleC15StaleSnapshot(p *Prog, r *Res) {
 		var defs []def
 		for _, pt := range fl.Find(func(n ast.Node) bool { _, ok := n.(*ast.AssignStmt); return ok }) {
 			as := fl.node(pt).(*ast.AssignStmt)
+			// a copy of an entry of a bookkeeping MAP (`info, ok := cachefile.streamInfos[id]`): the entry describes
+			// where the record lies in the file, a compaction moves the record and rewrites the entry
+			if len(as.Rhs) == 1 && (len(as.Lhs) == 1 || len(as.Lhs) == 2) {
+				if ix, ok := ast.Unparen(as.Rhs[0]).(*ast.IndexExpr); ok {
+					if se, ok := ast.Unparen(ix.X).(*ast.SelectorExpr); ok {
+						if v, ok := info.Uses[se.Sel].(*types.Var); ok && v.IsField() {
+							if n := namedOf(info.TypeOf(se.X)); n != nil && n.Obj() == cf.Obj() {
+								if _, isMap := v.Type().Underlying().(*types.Map); isMap {
+									if id, ok := as.Lhs[0].(*ast.Ident); ok && id.Name != "_" {
+										if o := info.ObjectOf(id); o != nil {
+											defs = append(defs, def{o, map[*types.Var]bool{v: true}, as, v.Name() + "[…]"})
+										}
+									}
+									continue
+								}
+							}
+						}
+					}
+				}
+			}
 			if len(as.Lhs) != len(as.Rhs) {
 				continue
 			}
